@@ -10,6 +10,8 @@ import (
 	"github.com/ipfs/go-cid"
 	dagpb "github.com/ipld/go-codec-dagpb"
 	"github.com/ipld/go-ipld-prime"
+	"github.com/ipld/go-ipld-prime/datamodel"
+	"github.com/ipld/go-ipld-prime/node/basicnode"
 	"github.com/ipld/go-ipld-prime/schema"
 
 	"verifharness/mon"
@@ -96,7 +98,29 @@ func checkDirAsMap(c *mon.Case, prop string, node ipld.Node, model map[string]ci
 				c.Violation(prop+"|member-wrong-link", "LookupByString(%q) = %v (%v), want %v", name, got, err, model[name])
 			}
 		})
+		// the other lookup entry points must give the same answer (a sample of the members)
+		if (i/step)%7 == 0 {
+			for ei, f := range []func() (ipld.Node, error){
+				func() (ipld.Node, error) { return node.LookupBySegment(datamodel.PathSegmentOfString(name)) },
+				func() (ipld.Node, error) { return node.LookupByNode(basicnode.NewString(name)) },
+				func() (ipld.Node, error) { return node.LookupByNode(pbString(name)) },
+			} {
+				ei, f := ei, f
+				c.Guard("lookup entry point", func() {
+					v, err := f()
+					c.Count("lookups_member", 1)
+					got, e2 := cid.Undef, error(nil)
+					if err == nil {
+						got, e2 = asCid(v)
+					}
+					if err != nil || e2 != nil || !got.Equals(model[name]) {
+						c.Violation(fmt.Sprintf("%s|member-entry-point-%d", prop, ei), "lookup entry point %d (0=BySegment 1=ByNode(string) 2=ByNode(dagpb.String)) of member %q returned (%v, %v/%v), want %v", ei, name, got, err, e2, model[name])
+					}
+				})
+			}
+		}
 	}
+	probeN := 0
 	probe := func(p string) {
 		if _, ok := model[p]; ok {
 			return
@@ -111,6 +135,23 @@ func checkDirAsMap(c *mon.Case, prop string, node ipld.Node, model map[string]ci
 				c.Violation(prop+"|nonmember-other-error", "LookupByString(%q) of a non-member returned %T %v instead of not-found", p, err, err)
 			}
 		})
+		probeN++
+		if probeN%5 == 0 {
+			for ei, f := range []func() (ipld.Node, error){
+				func() (ipld.Node, error) { return node.LookupBySegment(datamodel.PathSegmentOfString(p)) },
+				func() (ipld.Node, error) { return node.LookupByNode(basicnode.NewString(p)) },
+				func() (ipld.Node, error) { return node.LookupByNode(pbString(p)) },
+			} {
+				ei, f := ei, f
+				c.Guard("lookup entry point (non-member)", func() {
+					_, err := f()
+					c.Count("lookups_nonmember", 1)
+					if err == nil || !isNotFound(err) {
+						c.Violation(fmt.Sprintf("%s|nonmember-entry-point-%d", prop, ei), "lookup entry point %d (0=BySegment 1=ByNode(string) 2=ByNode(dagpb.String)) of non-member %q returned err=%v, want not-found", ei, p, err)
+					}
+				})
+			}
+		}
 	}
 	pstep := 1
 	if len(names) > 300 {
